@@ -408,7 +408,7 @@ pub fn assign_opts(rng: &mut Rng, spec: &Spec, nodes: &mut [Node], p_width: u64,
 }
 
 /// Content length of a node under the canonical reference encoding (to decide whether a width fits).
-fn content_len(n: &Node) -> u64 {
+pub fn content_len(n: &Node) -> u64 {
     if n.is_master() {
         n.children.iter().map(total_len).sum()
     } else {
@@ -525,4 +525,114 @@ pub fn tree_fingerprint(nodes: &[Node]) -> u64 {
         );
     }
     h
+}
+
+// ---------------------------------------------------------------- document shaping helpers
+
+/// Make the last element of the document empty (empty Binary/Utf8 leaf, or a master without children).
+pub fn make_last_empty(nodes: &mut [Node]) -> bool {
+    fn go(n: &mut Node) -> bool {
+        if n.is_master() {
+            if let Some(last) = n.children.last_mut() {
+                return go(last);
+            }
+            true // already an empty master
+        } else {
+            match &mut n.item {
+                Item::S(_, s) => {
+                    s.clear();
+                    true
+                }
+                Item::B(_, b) | Item::Raw(_, b) => {
+                    b.clear();
+                    true
+                }
+                _ => false,
+            }
+        }
+    }
+    match nodes.last_mut() {
+        Some(n) => go(n),
+        None => false,
+    }
+}
+
+/// Pad one random master with a trailing Void element so that its content is exactly `target` bytes
+/// (targets are the sizes whose minimal vint would be the reserved all-ones pattern, and neighbours).
+pub fn pad_master_to(rng: &mut Rng, nodes: &mut [Node], target: u64) -> bool {
+    // collect candidate masters (paths as index vectors)
+    let mut paths: Vec<Vec<usize>> = Vec::new();
+    fn collect(n: &Node, cur: &mut Vec<usize>, out: &mut Vec<Vec<usize>>) {
+        if n.is_master() {
+            out.push(cur.clone());
+            for (i, c) in n.children.iter().enumerate() {
+                cur.push(i);
+                collect(c, cur, out);
+                cur.pop();
+            }
+        }
+    }
+    for (i, n) in nodes.iter().enumerate() {
+        let mut cur = vec![i];
+        collect(n, &mut cur, &mut paths);
+    }
+    rng.shuffle(&mut paths);
+    for p in paths {
+        let mut n: &mut Node = &mut nodes[p[0]];
+        for i in &p[1..] {
+            n = &mut n.children[*i];
+        }
+        let c = content_len(n);
+        if c + 2 > target {
+            continue;
+        }
+        let extra = target - c;
+        let payload = if extra - 2 < 127 { extra - 2 } else if extra >= 3 && extra - 3 >= 127 { extra - 3 } else { continue };
+        n.children.push(Node::leaf(Item::B(VOID_ID, rng.bytes(payload as usize))));
+        debug_assert_eq!(content_len(n), target);
+        return true;
+    }
+    false
+}
+
+/// Insert raw (unknown-id) leaves at random positions; ids are well-formed and not in the spec.
+pub fn add_raw_tags(rng: &mut Rng, spec: &Spec, nodes: &mut Vec<Node>, n: usize) {
+    for _ in 0..n {
+        let id = loop {
+            let l = rng.urange(1, 4);
+            let id = random_id(rng, l);
+            if spec.get(id).is_none() {
+                break id;
+            }
+        };
+        let len = lattice_len(rng, false);
+        let leaf = Node::leaf(Item::Raw(id, rng.bytes(len)));
+        // choose a random master (or top level)
+        let mut target: &mut Vec<Node> = nodes;
+        loop {
+            let masters: Vec<usize> = target.iter().enumerate().filter(|(_, x)| x.is_master()).map(|(i, _)| i).collect();
+            if masters.is_empty() || rng.chance(1, 3) {
+                break;
+            }
+            let i = *rng.pick(&masters);
+            target = &mut target[i].children;
+        }
+        let pos = rng.urange(0, target.len());
+        target.insert(pos, leaf);
+    }
+}
+
+pub fn len_class(n: usize) -> &'static str {
+    match n {
+        0 => "len0",
+        1..=125 => "len1-125",
+        126 => "len126",
+        127 => "len127",
+        128 => "len128",
+        129..=16381 => "len129-16381",
+        16382 => "len16382",
+        16383 => "len16383",
+        16384 => "len16384",
+        _ => "len>16384",
+    }
 }
